@@ -199,5 +199,18 @@ impl<T: Ranged> Run<T> {
     }
 //@ END
 }
+
+//@ FROM src/table/util.rs :: - :: fn aggregate_run_key_range :: OBL C07.12, C01.30
+//@ SUBST `& [ Table ]` ==> `&[T]`
+/// the free-standing twin of Run::aggregate_key_range that leveled compaction applies to a window of a run
+fn aggregate_run_key_range/*+*/<T: Ranged>/*-*/(tables: &[T]) -> /*+*/(r:/*-*/ KeyRange/*+*/)
+    requires tables@.len() > 0
+    ensures r.lo() == tables@[0].kr().lo(), r.hi() == tables@.last().kr().hi()/*-*/
+{
+    let lo = tables.first().expect("run should never be empty");
+    let hi = tables.last().expect("run should never be empty");
+    KeyRange::new((lo.key_range().min().clone(), hi.key_range().max().clone()))
+}
+//@ END
 }
 fn main() {}
